@@ -64,6 +64,7 @@ static char g_viol[VS_MAXVIOL][VS_VIOLLEN];
 static int g_nviol;
 
 static int g_nth_fn = -1, g_nth_left = -1;  // fail the n-th call of one function
+static int g_nth_err;                       // 0: the default for that function (ENOMEM / EINTR)
 static unsigned g_nth_fired;
 static int g_pipe_capacity;  // > 0: every pipe the library creates is shrunk to this many bytes
 static int g_dry_nextfd = 1000;
@@ -280,8 +281,16 @@ void vs_reset_light(void)
 unsigned vs_nth_fired(void) { return g_nth_fired; }
 void vs_pipe_capacity(int bytes) { g_pipe_capacity = bytes; }
 
+void vs_fail_nth_err(int fn, int n, int err)
+{
+  g_nth_fn = fn;
+  g_nth_left = n;
+  g_nth_err = err;
+}
+
 void vs_fail_nth(int fn, int n)
 {
+  g_nth_err = 0;
   g_nth_fn = fn;
   g_nth_left = n;
 }
@@ -1129,7 +1138,15 @@ pid_t vs_waitpid(pid_t pid, int *status, int options)
   }
   if (nth_hit(VS_WAITPID)) {
     r->faulted = 1;
-    errno = EINTR;
+    if (g_nth_err == ECHILD && !g_dry) {
+      // "no such child" is what a caller gets whose SIGCHLD is ignored or whose own
+      // reaper was quicker: make it true (the child is collected here) before reporting it
+      int st2;
+      if (waitpid(pid, &st2, 0) == pid) {
+        g_child[ci].live = 0;
+      }
+    }
+    errno = g_nth_err ? g_nth_err : EINTR;
     FINISH(r, -1);
     return -1;
   }
